@@ -592,6 +592,9 @@ class Engine:
     # lvalues --------------------------------------------------------------------------------------
     def read_lv(self, st, lv):
         if lv.kind == "var":
+            if lv.a not in st.env:
+                # a name that is not a local: a store through it mutates module-level (shared) state
+                raise OutsideSubset(f"store through the non-local name {lv.a!r} (module-level state)")
             return st.env[lv.a]
         if lv.kind == "ghost":
             return st.ghost[lv.a]
